@@ -1,5 +1,6 @@
 import Hive.Proofs.DaemonRun
 import Hive.Proofs.DaemonProgress
+import Hive.Proofs.DaemonReg
 import Hive.Gen.C20_Skel
 /-!
 # C20 — the daemon stops background workers in descending shutdown order
@@ -123,6 +124,51 @@ theorem C20_shutdown_not_stuck (ts ts' : List Th) (s : St) (hr : Reach (sys true
       | exact h (List.map_eq_nil_iff.mp this)
   · exact he (hstuck _ (hpool i hi))
 
+/-! ## The registry of a running daemon and `GetRunningBackgroundWorkers` -/
+
+/-- **What `GetRunningBackgroundWorkers` returns is ascending by shutdown order and free of duplicates**, in every
+reachable state (the registry is sorted by descending order whatever `sort.Slice` does with ties; the query reverses
+the filtered registry). -/
+theorem C20_running_list_ascending (ts ts' : List Th) (s : St) (hr : Reach (sys true true) (init, ts) (s, ts')) :
+    (runningList s).Pairwise (fun a b => ordOf s a ≤ ordOf s b) ∧
+      ∀ a, a ∈ runningList s → ∀ b, b ∈ runningList s → (s.objs a).name = (s.objs b).name → a = b :=
+  ⟨runningList_ascending (inv_reach hr).1, runningList_names_distinct (inv_reach hr).1⟩
+
+/-- **… and complete**: until `clear()` every started worker that has not been cleaned up (its handler runs, has
+returned, or has called `Done`) is listed, and everything listed is a registered worker whose flag is set. -/
+theorem C20_running_list_complete (ts ts' : List Th) (s : St) (hr : Reach (sys true true) (init, ts) (s, ts'))
+    (hcl : s.cleared = false) (i : Nat) (hi : i < s.n) (hb : busy s i = true) :
+    i ∈ runningList s ∧ ∀ j, j ∈ runningList s → (j < s.n ∧ (s.objs j).flag = true) :=
+  ⟨runningList_complete (inv_reach hr).1 hcl hi hb,
+    fun j hj => ⟨(inv_reach hr).1.regv j (runningList_mem.mp hj).1, (runningList_mem.mp hj).2⟩⟩
+
+/-- **Every registered worker of a running, not yet stopped daemon is running** (`Start` and `BackgroundWorker` start
+the workers in the critical section in which they find the daemon running; `cleanupWorker` removes the name before the
+flag is cleared). -/
+theorem C20_registered_all_running (ts ts' : List Th) (s : St) (hr : Reach (sys true true) (init, ts) (s, ts'))
+    (hst : s.stopped = false) (hrun : s.running = true) : ∀ i, i ∈ s.regl → (s.objs i).flag = true :=
+  (inv3_reach hr).2.allflag hst hrun
+
+/-- **The replacement branch of `BackgroundWorker` is dead code**: in every reachable state of a running, not stopped
+daemon a call for a name that is in the registry is refused with `ErrExistingBackgroundWorkerStillRunning`; the branch
+"existing worker is no longer running → `removeWorkerFromShutdownOrder`, register again" is never taken (a finished
+worker has already removed its name).  This is why dropping that removal is an equivalent change (design/C20.md, B). -/
+theorem C20_reregistration_branch_dead (ts ts' : List Th) (s : St) (hr : Reach (sys true true) (init, ts) (s, ts'))
+    (hst : s.stopped = false) (hrun : s.running = true) (c name j : Nat) (order : Int)
+    (hf : findName s name = some j) :
+    bwCrit true s c name order = [emit (.refuse c name .running) s] := by
+  have hA := (inv_reach hr).1
+  have hfl := C20_registered_all_running ts ts' s hr hst hrun j (findName_some hf).1
+  have hcl : s.cleared = false := by
+    cases hc : s.cleared with
+    | false => rfl
+    | true =>
+      have hd := hA.clearedDone hc
+      have := hA.stopped_iff.mpr (by simp [hd])
+      rw [hst] at this; cases this
+  unfold bwCrit
+  simp [hst, hcl, hf, hrun, hfl]
+
 /-! ## witnesses about the code before its repairs (concrete schedules; they were replayed on the real code
 of that time by `harness/c20`, see design/C20.md) -/
 
@@ -223,6 +269,14 @@ example :
     let s := (runSched (sys true true) (init, demoPool) (demoSchedule.take 18)).1
     s.stopped = true ∧ s.sd = .waitMid 5 [2] ∧ sdBody s = [] ∧ (s.objs 0).counted = true ∧
       step true true s (.wk 0) ≠ [] := by
+  decide +kernel
+
+/-- The hypotheses are satisfiable: after the first 8 steps of `demoSchedule` the daemon runs, is not stopped, all three
+workers are registered and listed in ascending order, and name 1 is found in the registry. -/
+example :
+    let s := (runSched (sys true true) (init, demoPool) (demoSchedule.take 8)).1
+    s.stopped = false ∧ s.running = true ∧ s.cleared = false ∧ findName s 1 = some 0 ∧ busy s 0 = true ∧
+      (runningList s).map (fun i => ((s.objs i).name, (s.objs i).order)) = [(3, -2), (2, 5), (1, 5)] := by
   decide +kernel
 
 /-! ## Regenerated tie: the synchronisation skeletons the protocol model was written against
